@@ -1627,6 +1627,9 @@ class Engine:
                     self.throw(path, "TypeError", "can only concatenate str to str")
             if isinstance(l, Sym) and isinstance(r, (tuple, ListObj, Sym)) or isinstance(r, Sym) and isinstance(l, (tuple, ListObj)):
                 return self.sym_concat(path, l, r)
+        if opn == "Mult" and (isinstance(l, (tuple, str)) and isinstance(r, int) and not isinstance(r, bool)
+                              or isinstance(r, (tuple, str)) and isinstance(l, int) and not isinstance(l, bool)):
+            return l * r                # repetition of a concrete tuple / string
         if isinstance(l, (SInt, int)) and isinstance(r, (SInt, int)) and not isinstance(l, bool) and not isinstance(r, bool):
             a = l.e if isinstance(l, SInt) else z3.IntVal(l)
             b = r.e if isinstance(r, SInt) else z3.IntVal(r)
@@ -1987,6 +1990,11 @@ class Engine:
             def norm(x, default):
                 if x is None:
                     return default
+                if isinstance(x, SInt):
+                    # Python's clamping of a symbolic bound: negative counts from the end, then clamp to [0, len]
+                    e = x.e
+                    e = z3.If(e < 0, L + e, e)
+                    return z3.If(e < 0, z3.IntVal(0), z3.If(e > L, L, e))
                 if not isinstance(x, int):
                     raise Unsupported("symbolic slice bound")
                 if x >= 0:
